@@ -1033,6 +1033,11 @@ func (s *Server) processPublish(cl *Client, pk packets.Packet) error {
 		s.hooks.OnQosPublish(cl, ack, ack.Created, 0)
 	}
 
+	// The message is handed to its subscribers (and their in-flight copies stored) before the
+	// publisher is told that the broker has taken it over: if the process dies in between, an
+	// acknowledged message is never one that was not yet queued anywhere.
+	s.publishToSubscribers(pk)
+
 	err = cl.WritePacket(ack)
 	if err != nil {
 		return err
@@ -1046,7 +1051,6 @@ func (s *Server) processPublish(cl *Client, pk packets.Packet) error {
 		s.hooks.OnQosComplete(cl, ack)
 	}
 
-	s.publishToSubscribers(pk)
 	s.hooks.OnPublished(cl, pk)
 
 	return nil
